@@ -263,6 +263,13 @@ package stree
 //@+     && (forall a int, b int :: {p[a], p[b]} 0 <= a && b == a + 1 && b < len(p) ==> p[b] == p[a].left || p[b] == p[a].right)
 //@ pred pathOK(c *Cursor[T]) := nodePath(c.path)
 //@ spec cur(c *Cursor[T]) *node[T] := c.path[len(c.path) - 1]
+// The ordering half of C03. ordPath: the path starts at the root of a well-formed tree, stays inside it, and every key
+// of the tree outside the subtree of a path node compares with all keys of that subtree the way it compares with the
+// node's own key (the subtree's keys are an interval of the tree's keys). Established by pathTo and Root, kept by
+// every move; it is what makes "the next key" a statement about the whole tree.
+//@ pred ordPath(p []*node[T], cmp func(T, T) int) := len(p) > 0 ==> treeOK(p[0], cmp)
+//@+     && (forall j int :: {p[j]} 0 <= j && j < len(p) ==> p[j] in p[0].desc)
+//@+     && (forall j int, k int, m int :: {p[j], k in p[0].keys, m in p[j].keys} 0 <= j && j < len(p) && k in p[0].keys && !(k in p[j].keys) && m in p[j].keys ==> ((k < m) <==> (k < rank(cmp, p[j].X))))
 //@ pred samePrefix(c *Cursor[T], n int) := forall k int :: {c.path[k]} 0 <= k && k < n && k < len(c.path) ==> c.path[k] == old(c.path[k])
 //@
 //@ func (*Cursor).Valid
@@ -286,31 +293,38 @@ package stree
 //@   ensures  [C03] result == (c != nil && len(c.path) > 1)
 //@
 //@ func (*Cursor).Left
-//@   requires [C03] c != nil ==> pathOK(c)
-//@   ensures  [C03] same: result == c && (c != nil ==> pathOK(c))
+//@   ghost cmp func(T, T) int
+//@   requires [C03] c != nil ==> pathOK(c) && ordPath(c.path, cmp)
+//@   ensures  [C03] same: result == c && (c != nil ==> pathOK(c) && ordPath(c.path, cmp))
+//@   ensures  [C03] smaller: c != nil && old(len(c.path)) != 0 && old(cur(c).left) != nil ==> forall k int :: {k in cur(c).keys} k in cur(c).keys ==> k < rank(cmp, old(cur(c).X))
 //@   ensures  [C03] moved: c != nil && old(len(c.path)) != 0 && old(cur(c).left) != nil ==> len(c.path) == old(len(c.path)) + 1 && cur(c) == old(cur(c).left)
 //@   ensures  [C03] off: c != nil && old(len(c.path)) != 0 && old(cur(c).left) == nil ==> len(c.path) == 0
 //@   ensures  [C03] prefix: c != nil ==> samePrefix(c, old(len(c.path)))
 //@   modifies c.path, backing(c.path)
 //@
 //@ func (*Cursor).Right
-//@   requires [C03] c != nil ==> pathOK(c)
-//@   ensures  [C03] same: result == c && (c != nil ==> pathOK(c))
+//@   ghost cmp func(T, T) int
+//@   requires [C03] c != nil ==> pathOK(c) && ordPath(c.path, cmp)
+//@   ensures  [C03] same: result == c && (c != nil ==> pathOK(c) && ordPath(c.path, cmp))
+//@   ensures  [C03] larger: c != nil && old(len(c.path)) != 0 && old(cur(c).right) != nil ==> forall k int :: {k in cur(c).keys} k in cur(c).keys ==> k > rank(cmp, old(cur(c).X))
 //@   ensures  [C03] moved: c != nil && old(len(c.path)) != 0 && old(cur(c).right) != nil ==> len(c.path) == old(len(c.path)) + 1 && cur(c) == old(cur(c).right)
 //@   ensures  [C03] off: c != nil && old(len(c.path)) != 0 && old(cur(c).right) == nil ==> len(c.path) == 0
 //@   ensures  [C03] prefix: c != nil ==> samePrefix(c, old(len(c.path)))
 //@   modifies c.path, backing(c.path)
 //@
 //@ func (*Cursor).Up
-//@   requires [C03] c != nil ==> pathOK(c)
-//@   ensures  [C03] same: result == c && (c != nil ==> pathOK(c))
+//@   ghost cmp func(T, T) int
+//@   requires [C03] c != nil ==> pathOK(c) && ordPath(c.path, cmp)
+//@   ensures  [C03] same: result == c && (c != nil ==> pathOK(c) && ordPath(c.path, cmp))
 //@   ensures  [C03] moved: c != nil && old(len(c.path)) != 0 ==> len(c.path) == old(len(c.path)) - 1
 //@   ensures  [C03] prefix: c != nil ==> samePrefix(c, len(c.path))
 //@   modifies c.path
 //@
 //@ func (*Cursor).Min
-//@   requires [C03] c != nil ==> pathOK(c)
-//@   ensures  [C03] same: result == c && (c != nil ==> pathOK(c))
+//@   ghost cmp func(T, T) int
+//@   requires [C03] c != nil ==> pathOK(c) && ordPath(c.path, cmp)
+//@   ensures  [C03] same: result == c && (c != nil ==> pathOK(c) && ordPath(c.path, cmp))
+//@   ensures  [C03] least: c != nil && old(len(c.path)) != 0 ==> rank(cmp, cur(c).X) in old(cur(c)).keys && forall k int :: {k in old(cur(c)).keys} k in old(cur(c)).keys ==> k >= rank(cmp, cur(c).X)
 //@   ensures  [C03] bottom: c != nil && old(len(c.path)) != 0 ==> len(c.path) >= old(len(c.path)) && cur(c).left == nil
 //@   ensures  [C03] leftward: c != nil ==> forall a int, b int :: {c.path[a], c.path[b]} old(len(c.path)) <= b && b == a + 1 && b < len(c.path) ==> c.path[b] == c.path[a].left
 //@   ensures  [C03] prefix: c != nil ==> samePrefix(c, old(len(c.path)))
@@ -319,10 +333,14 @@ package stree
 //@   loop 1: invariant [C03] shape: c != nil && len(c.path) >= old(len(c.path)) && len(c.path) > 0 && min == cur(c) && pathOK(c) && other_arrays_unchanged(c.path) && (c.path.base == old(c.path.base) || fresh(c.path))
 //@   loop 1: invariant [C03] prefix: samePrefix(c, old(len(c.path)))
 //@   loop 1: invariant [C03] leftward: forall a int, b int :: {c.path[a], c.path[b]} old(len(c.path)) <= b && b == a + 1 && b < len(c.path) ==> c.path[b] == c.path[a].left
+//@   loop 1: invariant [C03] ord: ordPath(c.path, cmp)
+//@   loop 1: invariant [C03] least: min in old(cur(c)).desc && rank(cmp, min.X) in old(cur(c)).keys && forall k int :: {k in old(cur(c)).keys} k in old(cur(c)).keys ==> k in min.keys || k > rank(cmp, min.X)
 //@
 //@ func (*Cursor).Max
-//@   requires [C03] c != nil ==> pathOK(c)
-//@   ensures  [C03] same: result == c && (c != nil ==> pathOK(c))
+//@   ghost cmp func(T, T) int
+//@   requires [C03] c != nil ==> pathOK(c) && ordPath(c.path, cmp)
+//@   ensures  [C03] same: result == c && (c != nil ==> pathOK(c) && ordPath(c.path, cmp))
+//@   ensures  [C03] greatest: c != nil && old(len(c.path)) != 0 ==> rank(cmp, cur(c).X) in old(cur(c)).keys && forall k int :: {k in old(cur(c)).keys} k in old(cur(c)).keys ==> k <= rank(cmp, cur(c).X)
 //@   ensures  [C03] bottom: c != nil && old(len(c.path)) != 0 ==> len(c.path) >= old(len(c.path)) && cur(c).right == nil
 //@   ensures  [C03] rightward: c != nil ==> forall a int, b int :: {c.path[a], c.path[b]} old(len(c.path)) <= b && b == a + 1 && b < len(c.path) ==> c.path[b] == c.path[a].right
 //@   ensures  [C03] prefix: c != nil ==> samePrefix(c, old(len(c.path)))
@@ -331,9 +349,14 @@ package stree
 //@   loop 1: invariant [C03] shape: c != nil && len(c.path) >= old(len(c.path)) && len(c.path) > 0 && max == cur(c) && pathOK(c) && other_arrays_unchanged(c.path) && (c.path.base == old(c.path.base) || fresh(c.path))
 //@   loop 1: invariant [C03] prefix: samePrefix(c, old(len(c.path)))
 //@   loop 1: invariant [C03] rightward: forall a int, b int :: {c.path[a], c.path[b]} old(len(c.path)) <= b && b == a + 1 && b < len(c.path) ==> c.path[b] == c.path[a].right
+//@   loop 1: invariant [C03] ord: ordPath(c.path, cmp)
+//@   loop 1: invariant [C03] greatest: max in old(cur(c)).desc && rank(cmp, max.X) in old(cur(c)).keys && forall k int :: {k in old(cur(c)).keys} k in old(cur(c)).keys ==> k in max.keys || k < rank(cmp, max.X)
 //@
 //@ func (*Cursor).findNext
-//@   requires [C03] c != nil && len(c.path) > 0 && pathOK(c)
+//@   ghost cmp func(T, T) int
+//@   requires [C03] c != nil && len(c.path) > 0 && pathOK(c) && ordPath(c.path, cmp)
+//@   ensures  [C03] upMax: cur(c).right == nil ==> forall k int :: {k in c.path[result.1 + 1].keys} k in c.path[result.1 + 1].keys ==> k <= rank(cmp, cur(c).X)
+//@   loop 1: invariant [C03] max: rank(cmp, cur(c).X) in c.path[i].keys && forall k int :: {k in c.path[i].keys} k in c.path[i].keys ==> k <= rank(cmp, cur(c).X)
 //@   ensures  [C03] down: cur(c).right != nil ==> result.0 == cur(c).right && result.1 == -1
 //@   ensures  [C03] up: cur(c).right == nil ==> result.0 == nil && -1 <= result.1 && result.1 < len(c.path) - 1
 //@   ensures  [C03] turn: cur(c).right == nil && result.1 >= 0 ==> forall a int, b int :: {c.path[a], c.path[b]} a == result.1 && b == a + 1 ==> c.path[b] == c.path[a].left
@@ -343,7 +366,10 @@ package stree
 //@   loop 1: decreases j + 1
 //@
 //@ func (*Cursor).findPrev
-//@   requires [C03] c != nil && len(c.path) > 0 && pathOK(c)
+//@   ghost cmp func(T, T) int
+//@   requires [C03] c != nil && len(c.path) > 0 && pathOK(c) && ordPath(c.path, cmp)
+//@   ensures  [C03] upMin: cur(c).left == nil ==> forall k int :: {k in c.path[result.1 + 1].keys} k in c.path[result.1 + 1].keys ==> k >= rank(cmp, cur(c).X)
+//@   loop 1: invariant [C03] min: rank(cmp, cur(c).X) in c.path[i].keys && forall k int :: {k in c.path[i].keys} k in c.path[i].keys ==> k >= rank(cmp, cur(c).X)
 //@   ensures  [C03] down: cur(c).left != nil ==> result.0 == cur(c).left && result.1 == -1
 //@   ensures  [C03] up: cur(c).left == nil ==> result.0 == nil && -1 <= result.1 && result.1 < len(c.path) - 1
 //@   ensures  [C03] turn: cur(c).left == nil && result.1 >= 0 ==> forall a int, b int :: {c.path[a], c.path[b]} a == result.1 && b == a + 1 ==> c.path[b] == c.path[a].right
@@ -365,8 +391,14 @@ package stree
 //@   ensures  [C03] up: c != nil && len(c.path) != 0 && cur(c).left == nil ==> (result <==> !(forall a int, b int :: {c.path[a], c.path[b]} 0 <= a && b == a + 1 && b < len(c.path) ==> c.path[b] != c.path[a].right))
 //@
 //@ func (*Cursor).Next
-//@   requires [C03] c != nil ==> pathOK(c)
-//@   ensures  [C03] same: result == c && (c != nil ==> pathOK(c))
+//@   ghost cmp func(T, T) int
+//@   requires [C03] c != nil ==> pathOK(c) && ordPath(c.path, cmp)
+//@   ensures  [C03] same: result == c && (c != nil ==> pathOK(c) && ordPath(c.path, cmp))
+//@   ensures  [C03] succ: c != nil && old(len(c.path)) != 0 && len(c.path) != 0 ==> rank(cmp, cur(c).X) > old(rank(cmp, cur(c).X)) && c.path[0] == old(c.path[0]) && forall k int :: {k in c.path[0].keys} k in c.path[0].keys ==> k <= old(rank(cmp, cur(c).X)) || k >= rank(cmp, cur(c).X)
+//@   ensures  [C03] last: c != nil && old(len(c.path)) != 0 && len(c.path) == 0 ==> forall k int :: {k in old(c.path[0]).keys} k in old(c.path[0]).keys ==> k <= old(rank(cmp, cur(c).X))
+//@   call findNext#1: cmp = cmp
+//@   loop 1: invariant [C03] ord: ordPath(c.path, cmp)
+//@   loop 1: invariant [C03] least: len(c.path) > old(len(c.path)) ==> cur(c) in old(cur(c).right).desc && forall k int :: {k in old(cur(c).right).keys} k in old(cur(c).right).keys ==> k in cur(c).keys || k > rank(cmp, cur(c).X)
 //@   ensures  [C03] invalid: c != nil && old(len(c.path)) == 0 ==> len(c.path) == 0
 //@   ensures  [C03] down: c != nil && old(len(c.path)) != 0 && old(cur(c).right) != nil ==> len(c.path) > old(len(c.path)) && samePrefix(c, old(len(c.path))) && cur(c).left == nil
 //@   ensures  [C03] downFirst: c != nil && old(len(c.path)) != 0 && old(cur(c).right) != nil ==> forall a int, b int :: {c.path[a], c.path[b]} b == old(len(c.path)) && b == a + 1 ==> c.path[b] == c.path[a].right
@@ -382,8 +414,14 @@ package stree
 //@   loop 1: invariant [C03] rest: forall a int, b int :: {c.path[a], c.path[b]} old(len(c.path)) < b && b == a + 1 && b < len(c.path) ==> c.path[b] == c.path[a].left
 //@
 //@ func (*Cursor).Prev
-//@   requires [C03] c != nil ==> pathOK(c)
-//@   ensures  [C03] same: result == c && (c != nil ==> pathOK(c))
+//@   ghost cmp func(T, T) int
+//@   requires [C03] c != nil ==> pathOK(c) && ordPath(c.path, cmp)
+//@   ensures  [C03] same: result == c && (c != nil ==> pathOK(c) && ordPath(c.path, cmp))
+//@   ensures  [C03] pred: c != nil && old(len(c.path)) != 0 && len(c.path) != 0 ==> rank(cmp, cur(c).X) < old(rank(cmp, cur(c).X)) && c.path[0] == old(c.path[0]) && forall k int :: {k in c.path[0].keys} k in c.path[0].keys ==> k >= old(rank(cmp, cur(c).X)) || k <= rank(cmp, cur(c).X)
+//@   ensures  [C03] first: c != nil && old(len(c.path)) != 0 && len(c.path) == 0 ==> forall k int :: {k in old(c.path[0]).keys} k in old(c.path[0]).keys ==> k >= old(rank(cmp, cur(c).X))
+//@   call findPrev#1: cmp = cmp
+//@   loop 1: invariant [C03] ord: ordPath(c.path, cmp)
+//@   loop 1: invariant [C03] greatest: len(c.path) > old(len(c.path)) ==> cur(c) in old(cur(c).left).desc && forall k int :: {k in old(cur(c).left).keys} k in old(cur(c).left).keys ==> k in cur(c).keys || k < rank(cmp, cur(c).X)
 //@   ensures  [C03] invalid: c != nil && old(len(c.path)) == 0 ==> len(c.path) == 0
 //@   ensures  [C03] down: c != nil && old(len(c.path)) != 0 && old(cur(c).left) != nil ==> len(c.path) > old(len(c.path)) && samePrefix(c, old(len(c.path))) && cur(c).right == nil
 //@   ensures  [C03] downFirst: c != nil && old(len(c.path)) != 0 && old(cur(c).left) != nil ==> forall a int, b int :: {c.path[a], c.path[b]} b == old(len(c.path)) && b == a + 1 ==> c.path[b] == c.path[a].left
